@@ -1,7 +1,7 @@
 #!/bin/bash
 # C19 is built against an instrumented copy of package quadtree (overlay only).
 set -e
-cd /verif
+cd "$(dirname "$(readlink -f "$0")")/../.."
 go build -o .work/bin/instr ./tools/instr
 .work/bin/instr -out .work/c19 -yield quadtree -globals quadtree 2>.work/c19.instr.log || { cat .work/c19.instr.log; exit 1; }
 go build -tags verif -overlay .work/c19/overlay.json -o "$1" ./checks/c19
